@@ -2,5 +2,5 @@ From Coq Require Import ExtrOcamlBasic.
 From HV Require Import Base.Res Base.Str Base.C14Base Gen.ComplianceTables Model.Compliance.
 Extraction Language OCaml.
 Extraction "../ocaml/build/c14_model.ml"
-  force_types check_compliance load check_loaded i_code is_error errors_of
+  force_types fixed_all fixed_none check_compliance load check_loaded i_code is_error errors_of
   parse_float float_le_zero parse_int parse_version.
